@@ -636,7 +636,11 @@ fn parse_expr_unaryop(
                     (
                         ir::IntrinsicOp::PostfixIncrement,
                         expr_ir,
-                        expr_ty.0.to_rvalue(),
+                        context
+                            .module
+                            .type_registry
+                            .remove_modifier(expr_ty.0)
+                            .to_rvalue(),
                     )
                 }
                 ast::UnaryOp::PostfixDecrement => {
@@ -644,7 +648,11 @@ fn parse_expr_unaryop(
                     (
                         ir::IntrinsicOp::PostfixDecrement,
                         expr_ir,
-                        expr_ty.0.to_rvalue(),
+                        context
+                            .module
+                            .type_registry
+                            .remove_modifier(expr_ty.0)
+                            .to_rvalue(),
                     )
                 }
                 ast::UnaryOp::Plus | ast::UnaryOp::Minus => {
